@@ -104,14 +104,25 @@ func snoBody(gor, draws int, clock bool, restore bool, gens int) func() {
 				go func() {
 					for i := 0; i < draws; i++ {
 						if clock {
-							switch verifrt.Choose(3) {
+							// with snapshot/restore only forward moves: the property does not
+							// quantify over clocks, and a clock that runs backwards between a
+							// snapshot and the restore is outside what sno's snapshots cover
+							// (DESIGN.md §6)
+							nClock := 3
+							if restore {
+								nClock = 2
+							}
+							switch verifrt.Choose(nClock) {
 							case 1:
 								verifrt.SetClock(verifrt.ClockNow() + int64(tick))
+								verifrt.Log("%s: clock +tick -> %d", who, verifrt.ClockNow())
 							case 2:
 								verifrt.SetClock(verifrt.ClockNow() - int64(tick))
+								verifrt.Log("%s: clock -tick -> %d", who, verifrt.ClockNow())
 							}
 						}
 						x := gen.New()
+						verifrt.Log("%s draws %s at clock %d", who, x.String(), verifrt.ClockNow())
 						all = append(all, drawn{x.String(), who})
 						if restore && gi == 0 && k == 0 && snap == nil && verifrt.Choose(2) == 1 {
 							before = append([]drawn{}, all...)
@@ -120,6 +131,7 @@ func snoBody(gor, draws int, clock bool, restore bool, gens int) func() {
 								h.Fail("C20/sno/snapshot", "Snapshot: %v", err)
 							}
 							snap = s
+							verifrt.Log("snapshot taken at clock %d: %s", verifrt.ClockNow(), string(s))
 						}
 					}
 					done++
@@ -147,8 +159,28 @@ func snoBody(gor, draws int, clock bool, restore bool, gens int) func() {
 			}
 			var ids []drawn
 			ids = append(ids, before...)
-			for i := 0; i < draws; i++ {
-				ids = append(ids, drawn{rg.New().String(), "restored generator"})
+			// the restored generator may find the clock behind its snapshot (a regression): sno
+			// then waits for the clock to catch up, so the draws are made from a goroutine and
+			// the clock is moved on while they wait
+			rdone := false
+			go func() {
+				for i := 0; i < draws; i++ {
+					x := rg.New().String()
+					verifrt.Log("restored generator draws %s at clock %d", x, verifrt.ClockNow())
+					ids = append(ids, drawn{x, "restored generator"})
+				}
+				rdone = true
+			}()
+			for i := 0; i < 8; i++ {
+				verifrt.WaitIdle()
+				if rdone {
+					break
+				}
+				verifrt.Advance(tick)
+			}
+			if !rdone {
+				h.Fail("C20/sno/returns", "the restored generator's draws have not returned after the clock moved on 8 ticks; live: %v", verifrt.LiveEnvGoroutines())
+				return
 			}
 			checkDistinct("C20/sno/distinct-after-restore", ids)
 		}
